@@ -30,6 +30,11 @@ func schedFeature(repo, out string, replace map[string]string) {
 			die("parse %s: %v", f, err)
 		}
 		var offs []int
+		type edit struct {
+			from, to int
+			text     string
+		}
+		var edits []edit
 		add := func(list []ast.Stmt) {
 			for _, s := range list {
 				offs = append(offs, fset.Position(s.Pos()).Offset)
@@ -40,6 +45,22 @@ func schedFeature(repo, out string, replace map[string]string) {
 			if !ok || fd.Body == nil || skipFuncs[fd.Name.Name] {
 				continue
 			}
+			// mutex operations go through the scheduler's lock model: a thread parked while
+			// holding a real mutex would otherwise block the whole cooperative schedule
+			ast.Inspect(fd.Body, func(n ast.Node) bool {
+				ce, ok := n.(*ast.CallExpr)
+				if !ok || len(ce.Args) != 0 {
+					return true
+				}
+				se, ok := ce.Fun.(*ast.SelectorExpr)
+				if !ok || (se.Sel.Name != "Lock" && se.Sel.Name != "Unlock") {
+					return true
+				}
+				from, to := fset.Position(ce.Pos()).Offset, fset.Position(ce.End()).Offset
+				recv := string(src[fset.Position(se.X.Pos()).Offset:fset.Position(se.X.End()).Offset])
+				edits = append(edits, edit{from, to, "verifsched." + se.Sel.Name + "(&" + recv + ")"})
+				return true
+			})
 			ast.Inspect(fd.Body, func(n ast.Node) bool {
 				switch x := n.(type) {
 				case *ast.FuncLit:
@@ -58,10 +79,19 @@ func schedFeature(repo, out string, replace map[string]string) {
 			die("%s: only %d statements found", f, len(offs))
 		}
 		total += len(offs)
-		sort.Sort(sort.Reverse(sort.IntSlice(offs)))
-		s := string(src)
 		for _, o := range offs {
-			s = s[:o] + "verifsched.Point(); " + s[o:]
+			edits = append(edits, edit{o, o, "verifsched.Point(); "})
+		}
+		// apply from the end; at equal offsets the insertion (from==to) goes first in the text
+		sort.SliceStable(edits, func(i, j int) bool {
+			if edits[i].from != edits[j].from {
+				return edits[i].from > edits[j].from
+			}
+			return edits[i].to > edits[j].to
+		})
+		s := string(src)
+		for _, e := range edits {
+			s = s[:e.from] + e.text + s[e.to:]
 		}
 		// add the import after the package clause
 		pk := fset.Position(af.Name.End()).Offset
@@ -80,6 +110,34 @@ func Point() {
 	if h := Hook; h != nil {
 		h()
 	}
+}
+
+// Locker is what sync.Mutex offers; mutex operations of the instrumented files are
+// routed here so that the scheduler can model blocking.
+type Locker interface {
+	Lock()
+	Unlock()
+}
+
+var (
+	LockHook   func(m Locker)
+	UnlockHook func(m Locker)
+)
+
+func Lock(m Locker) {
+	if h := LockHook; h != nil {
+		h(m)
+		return
+	}
+	m.Lock()
+}
+
+func Unlock(m Locker) {
+	if h := UnlockHook; h != nil {
+		h(m)
+		return
+	}
+	m.Unlock()
 }
 `
 	p := filepath.Join(out, "verifsched.go")
